@@ -338,8 +338,8 @@ def run_script(sc, prio, seed):
 
 
 def plan(tier, seed, build, scale):
-    n = int((1600 if tier == "quick" else 24000) * scale)
-    per = max(1, n // (8 if tier == "quick" else 32))
+    n = int((1600 if tier == "quick" else 120000) * scale)
+    per = max(1, n // (8 if tier == "quick" else 64))
     units = []
     a = 0
     while a < n:
